@@ -178,7 +178,7 @@ def agg_oracle(f1, f2, f3, g1, g2, g3, inc):
         count[c] = count.get(c, 0) + 1
         sub[c] = sub.get(c, 0) + n
         if c not in first:
-            first[c] = i + 1
+            first[c] = i
         total += n
         ctr += inc
     return (tally, count, sub, first, total, ctr)
@@ -189,7 +189,7 @@ def agg_oracle(f1, f2, f3, g1, g2, g3, inc):
     "O4-aggregates",
     pre=["{LO} <= inc <= {HI}"],
     post="_ == agg_oracle(f1, f2, f3, g1, g2, g3, inc)",
-    bound="3 data lines; category cell 'a'/'b' and numeric cell 2/10 chosen per line by symbolic bools; counter increment inc "
+    bound="3 lines scanned from physical line 0; category cell 'a'/'b' and numeric cell 2/10 chosen per line by symbolic bools; counter increment inc "
     "symbolic LO..HI; named bookkeeping of tally, count(x), subtotal, first, sum, counter compared after the run",
     outside="more than 3 data lines; more than 2 categories; text-valued sums",
     encodes=ENC_RUN + ["csvpath/matching/functions/counting/tally.py", "csvpath/matching/functions/counting/count.py:Count._get_contained_value", "csvpath/matching/functions/math/subtotal.py",
@@ -197,12 +197,13 @@ def agg_oracle(f1, f2, f3, g1, g2, g3, inc):
     tiers={"quick": {"timeout": 900, "K": {"LO": -2, "HI": 11}}, "thorough": {"timeout": 2400, "K": {"LO": -11, "HI": 101}}},
 )
 def aggregates(f1: bool, f2: bool, f3: bool, g1: bool, g2: bool, g3: bool, inc: int) -> Tuple[Dict[str, int], Dict[str, int], Dict[str, int], Dict[str, int], int, int]:
-    recs = [["cat", "num"], [_cat(f1), str(_num(g1))], [_cat(f2), str(_num(g2))], [_cat(f3), str(_num(g3))]]
-    p, pr = fresh('$SYM[1*][ tally.t(#cat) count.cn(#cat) subtotal.st(#cat, #num) first.fi(#cat) sum.su(#num) counter.ct(@inc) ]', recs)
+    recs = [[_cat(f1), str(_num(g1))], [_cat(f2), str(_num(g2))], [_cat(f3), str(_num(g3))]]
+    p, pr = fresh('$SYM[*][ tally.t(#0) count.cn(#0) subtotal.st(#0, #1) first.fi(#0) sum.su(#1) counter.ct(@inc) ]', recs)
     p.variables["inc"] = inc
     p.fast_forward()
     v = p.variables
-    return (dict(v.get("t_cat") or {}), dict(v.get("cn") or {}), dict(v.get("st") or {}), dict(v.get("fi") or {}), v.get("su"), v.get("ct"))
+    tk = [k for k in v if k.startswith("t_")]
+    return (dict(v.get(tk[0]) or {}) if tk else {}, dict(v.get("cn") or {}), dict(v.get("st") or {}), dict(v.get("fi") or {}), v.get("su"), v.get("ct"))
 
 
 def every_oracle(f1, f2, f3, f4):
@@ -283,3 +284,41 @@ def dict_eq(a, b) -> bool:
     ka = set(k for k in a if a[k] is not None)
     kb = set(k for k in b if b[k] is not None)
     return ka == kb and all(a[k] == b[k] for k in ka)
+
+
+# ------------------------------------------------------------------ boolean-keyed tracking values read back on the same line
+def boolkey_oracle(t):
+    pf, pg = [], []
+    kt = kf = None
+    for i in range(4):
+        if i > t:
+            kt = (kt or 0) + 1
+        else:
+            kf = (kf or 0) + 1
+        pf.append(kf)
+        pg.append(kt)
+    d = {}
+    if kt is not None:
+        d[True] = kt
+    if kf is not None:
+        d[False] = kf
+    return (pf, pg, d)
+
+
+@ob(
+    "C03",
+    "O6-bool-keyed-tracking",
+    pre=["-1 <= t <= 4"],
+    post="_ == boolkey_oracle(t)",
+    bound="4 lines; count.k(gt(line_number(), @t)) keeps {True: n, False: m}; '@f = @k.False  @g = @k.True' read both keys back on "
+    "every line (docs/variables.md: a boolean tracking value is found through its name); threshold t symbolic",
+    outside="more than 4 lines",
+    encodes=ENC_RUN + ["csvpath/matching/productions/variable.py:Variable.to_value (True/False tracking)", "csvpath/matching/functions/counting/count.py:Count._get_contained_value"],
+    tiers={"quick": {"timeout": 600}},
+)
+def boolkey_run(t: int) -> Tuple[List[Optional[int]], List[Optional[int]], Dict[bool, int]]:
+    p, pr = fresh('$SYM[*][ count.k(gt(line_number(), @t)) @f = @k.False  @g = @k.True  push("pf", @f) push("pg", @g) ]', [["0"], ["1"], ["2"], ["3"]])
+    p.variables["t"] = t
+    p.fast_forward()
+    v = p.variables
+    return (list(v.get("pf", [])), list(v.get("pg", [])), dict(v.get("k") or {}))
